@@ -398,6 +398,12 @@ pub fn corpus() -> Vec<GTree> {
         doc(e(2, &[(3, NS_C), (2, NS_A)], &[], vec![e(3, &[(3, NS_A)], &[], vec![e(4, &[(4, NS_C)], &[], vec![])])])),
         // <r xmlns:p="A"><A:a xmlns="A"><A:b xmlns:q="A" q:x="v"/></A:a></r>   (second dedup removes more, no shadowing)
         doc(e(2, &[(2, NS_A)], &[], vec![e(6, &[(0, NS_A)], &[], vec![e(7, &[(3, NS_A)], &[8], vec![])])])),
+        // <a xmlns="A"><b xmlns:p="A"><c xmlns="B"><d p:x="v"/></c></b></a>: the attribute must keep p
+        // (tracker: the flag belongs to a, past the other default declared on c)
+        doc(e(6, &[(0, NS_A)], &[], vec![e(7, &[(2, NS_A)], &[], vec![e(9, &[(0, NS_B)], &[], vec![e(10, &[], &[8], vec![])])])])),
+        // <a xmlns="A"><b xmlns:p="A"><c xmlns="A"><d p:x="v"/></c></b></a>: the flag lands on c's
+        // redundant xmlns="A", which is popped before b is judged
+        doc(e(6, &[(0, NS_A)], &[], vec![e(7, &[(2, NS_A)], &[], vec![e(6, &[(0, NS_A)], &[], vec![e(7, &[], &[8], vec![])])])])),
         // default namespace declared, undeclared, redeclared
         doc(e(6, &[(0, NS_A)], &[], vec![e(2, &[(0, 0)], &[], vec![e(6, &[(0, NS_A)], &[], vec![e(3, &[], &[], vec![])])])])),
         // no-namespace element under a default namespace
